@@ -12,7 +12,7 @@ from ..astutil import text, short, endswith, calls_in
 from ..absdom import IntSet, cond_set, INF
 from ..dataflow import DefUse
 from .. import events as E
-from ._h_F import ifn, Res, res_of, call_arg, canon, atoms, is_none, alias_group, need, repo_callees
+from ._h_F import ifn, Res, res_of, call_arg, canon, atoms, is_none, alias_group, need, repo_callees, every_iteration
 
 EXPLANATION = (
   "Decides, by interpreting the id-filling loop of doBulkAddOrReplace over an interval domain, "
@@ -20,7 +20,9 @@ EXPLANATION = (
   "replaced by a counter that only grows past every id seen (R1); that a rejecting check on "
   "repeated ids dominates the gateway call and the ids returned are the ids given to the action "
   "(R2); that the doc action asserts non-existence of every id before its first mutation (R3); and "
-  "that the counter starts above every existing row id (R4). Not decided: the arithmetic of "
+  "that the counter starts above every existing row id (R4); that Engine.add_records marks as "
+  "existing exactly the requested ids, one id_column.set(id, id) per element of row_ids (R5). "
+  "Not decided: the arithmetic of "
   "Table.RowIDs.max itself for arbitrary column contents.")
 
 MAX_ID = 1000000
@@ -34,6 +36,7 @@ def check(run, repo, tier):
   r2_distinct(run, w, fn, fl)
   r3_docaction_assert(run, w)
   r4_counter(run, w, fn, fl)
+  r5_id_column(run, w)
 
 
 class FillLoop(object):
@@ -415,6 +418,69 @@ def r4_counter(run, w, fn, fl):
          "negative placeholders are mapped to the ids actually allocated", ok, fi=fn.fi)
 
 
+ID_COLUMN_READS = ("size", "raw_get", "get_cell_value", "growto", "is_formula", "type_obj")
+
+
+def r5_id_column(run, w):
+  R5 = run.rule("C27-R5", "Engine.add_records marks as existing exactly the requested row ids: "
+                "every write to the id column is set(<id>, <id>) for an element of row_ids", floor=1)
+  fn = ifn(w, "engine.Engine.add_records")
+  r = res_of(w, fn)
+  cfg = r.cfg
+  rows = fn.fi.params()[2]
+  def is_id_column(e, nid):
+    v = r.expand(e, nid)
+    return isinstance(v, ast.Call) and isinstance(v.func, ast.Attribute) and \
+        v.func.attr == "get_column" and v.args and text(v.args[0]) == "'id'"
+  writes, per_row = [], []
+  for n in cfg.nodes:
+    st = n.stmt
+    # direct stores into the id column's storage
+    if n.kind == "stmt" and isinstance(st, (ast.Assign, ast.AugAssign, ast.Delete)):
+      tgs = st.targets if isinstance(st, (ast.Assign, ast.Delete)) else [st.target]
+      for t in tgs:
+        b = t
+        while isinstance(b, (ast.Subscript, ast.Attribute)):
+          b = b.value
+          if is_id_column(b, n.id):
+            writes.append((n, st, False))
+            break
+    for c in calls_in(n.exprs):
+      f = c.func
+      if not (isinstance(f, ast.Attribute) and is_id_column(f.value, n.id)):
+        continue
+      if f.attr in ID_COLUMN_READS:
+        continue
+      if f.attr != "set" and not f.attr.startswith(("set", "unset", "copy", "clear", "load")):
+        raise AnalysisError("add_records: use of the id column not understood: %s" % short(c, 60))
+      good = False
+      if f.attr == "set":
+        a0, a1 = call_arg(c, 0, "row_id"), call_arg(c, 1, "value")
+        loops = r.enclosing(st, (ast.For,)) if st is not None else []
+        good = a0 is not None and a1 is not None and isinstance(a0, ast.Name) and \
+            text(a0) == text(a1) and any(
+              r.norm(l.iter, (r.nodes_of(l) or [n])[0].id) == rows and
+              a0.id in [x.id for x in ast.walk(l.target) if isinstance(x, ast.Name)] and
+              isinstance(l.target, ast.Name) for l in loops)
+        if good:
+          per_row.append((n, [l for l in loops if r.norm(l.iter, (r.nodes_of(l) or [n])[0].id)
+                              == rows][-1]))
+      writes.append((n, c, good))
+  need(writes, "a write to the table's id column", fn)
+  for (n, site, good) in writes:
+    run.ob(R5, fn.qualname, short(site, 70), "the id column is written one requested row id at a "
+           "time (index and value both that id), never over a derived range of ids", good,
+           fi=fn.fi, node=site)
+  # ... and on every path every requested id is written: some per-row write runs on all paths, or
+  # the alternatives to it were reported above
+  ok = any(every_iteration(r, l, n.id) for (n, l) in per_row)
+  if per_row and all(g for (_, _, g) in writes):
+    run.ob(R5, fn.qualname, "for row_id in row_ids: id_column.set(row_id, row_id)",
+           "every requested id is marked as existing", ok and any(
+             cfg.dominated_by(cfg.exit.id, {x.id for x in r.nodes_of(l)}) for (n, l) in per_row),
+           fi=fn.fi)
+
+
 U = "sandbox/grist/useractions.py"
 VARIANTS = [
   ("accept-zero", U, """      elif row_id == 0:
@@ -447,6 +513,9 @@ VARIANTS = [
         explicit_ids.add(row_id)
       next_row_id = max(next_row_id, row_id) + 1
 """, "C27-R2"),
+  ("ids-marked-over-a-range", "sandbox/grist/engine.py",
+   "    for row_id in row_ids:\n      id_column.set(row_id, row_id)\n",
+   "    for row_id in range(min(row_ids or [1]), growto_size):\n      id_column.set(row_id, row_id)\n", "C27-R5"),
   ("docaction-no-assert", "sandbox/grist/docactions.py",
    """    for row_id in row_ids:
       assert row_id not in table.row_ids, \\
